@@ -106,10 +106,10 @@ func c08() {
 }
 
 func c08Cases(out rec, run *vk.Run, dir, shm string, unpriv bool) {
-	n := run.Pick(300, 30000)
+	n := run.Pick(600, 30000)
 	workers := workerCount()
 	if unpriv {
-		n = run.Pick(100, 6000)
+		n = run.Pick(200, 6000)
 		if workers > 4 {
 			workers = 4
 		}
